@@ -400,8 +400,8 @@ theorem others_lab {cfg : Cfg} (hc : CfgEnc cfg) (buf : Bytes) (h : Hdr) (qs : L
     ∀ p, (others cfg buf h qs st v1 v2 v3).parsed? = some p → encodable p = true := by
   unfold others readOthers
   dsimp only
-  have i3 := readRecords_lab hc buf (Gen.Incoming.others_count h.nan h.nau h.nad) st hcache
-  generalize readRecords cfg buf (Gen.Incoming.others_count h.nan h.nau h.nad) st = r at i3
+  have i3 := readRecords_lab hc buf (Gen.Incoming.r_loop_count (Gen.Incoming.others_count h.nan h.nau h.nad)) st hcache
+  generalize readRecords cfg buf (Gen.Incoming.r_loop_count (Gen.Incoming.others_count h.nan h.nau h.nad)) st = r at i3
   obtain ⟨st', rs, e⟩ := r
   simp only at i3
   cases e with
@@ -434,8 +434,8 @@ theorem parseWith_encodable {cfg : Cfg} (hc : CfgEnc cfg) (buf : Bytes) :
     · intro p hp; simp [Run.parsed?] at hp
   | none =>
     dsimp only
-    obtain ⟨q1, q2⟩ := readQuestions_lab hc buf hd.nq st1 hc1
-    generalize readQuestions cfg buf hd.nq st1 = qr at q1 q2
+    obtain ⟨q1, q2⟩ := readQuestions_lab hc buf (Gen.Incoming.q_loop_count hd.nq) st1 hc1
+    generalize readQuestions cfg buf (Gen.Incoming.q_loop_count hd.nq) st1 = qr at q1 q2
     obtain ⟨st2, qs, e⟩ := qr
     simp only at q1 q2
     cases e with
